@@ -20,6 +20,9 @@ CONSTANTS Factors,     \* exponents r of the power-of-two re-expression factor 2
           DTypes,      \* further dtypes of the data ("f4", "c16") for the rows that also take integers
           DataSets,    \* which of the fixed data sets (1..3) the operands hold
           TempPairs,   \* <<base unit, target unit>> indices into K, degC, degF, R for the offset-unit family
+          TmPairs,     \* <<base unit, target unit>> indices into K, mK, R, delta_degF, delta_degC (multiplicative temperature units)
+          OneOpFactors,\* factors of the one-operand re-expression patterns and of the bare-operand forms
+          BareKinds,   \* how a bare operand is given: "a" plain ndarray (0-d: float), "l" list
           Fixes        \* proposed repairs (fixes/C07-*.patch) present in the tree: the transcription follows them
 
 F2 == {2, -4}
@@ -30,7 +33,12 @@ R1 == {1}
 R3 == {1, 2, 3}
 B1 == {<<3, -2>>}
 B2 == {<<3, -2>>, <<0, 1>>}
-FamsAll == {"dy", "int", "real", "reg", "temp"}
+FamsAll == {"dy", "int", "real", "reg", "temp", "tm", "bare"}
+TM1 == {<<1, 2>>}
+TM5 == {<<1, 2>>, <<0, 2>>, <<1, 3>>, <<4, 3>>, <<0, 1>>}
+OF1 == {2}
+BK1 == {"a"}
+BK2 == {"a", "l"}
 TP2 == {<<0, 2>>, <<1, 3>>}
 TP7 == {<<0, 2>>, <<1, 3>>, <<0, 1>>, <<0, 3>>, <<1, 2>>, <<2, 0>>, <<3, 1>>}
 DT0 == {}
@@ -90,7 +98,7 @@ RegMixed(n, a, b) == {rg \in RegAssign(n, a, b) : \E i \in 1..n : rg[i] = a}
 CaseU(row, sh, da, u, v, rg, p, rd, r, dt, real, ds) ==
   LET sig == ResSig(row.sig, sh)
       io == IF row.io.chk = "na" THEN row.io ELSE ResSig(row.io, sh)
-      c0 == [f |-> row.f, t |-> row.t, sh |-> sh, n |-> row.n, da |-> da, u |-> u, v |-> v, rg |-> rg, ok |-> "-", pat |-> p, rd |-> rd, r |-> r,
+      c0 == [f |-> row.f, t |-> row.t, sh |-> sh, n |-> row.n, da |-> da, u |-> u, v |-> v, rg |-> rg, ok |-> "-", bm |-> "-", bk |-> "-", pat |-> p, rd |-> rd, r |-> r,
              dt |-> dt, real |-> real, ds |-> ds, cls |-> row.cls, hcls |-> HCls(row.f), sig |-> sig, io |-> io,
              exact |-> row.ex, nocov |-> "nocov" \in row.fl, novals |-> "novals" \in row.fl, unord |-> "unordered" \in row.fl, od |-> PrimaryDeg(sig)] IN
   c0 @@ [tb |-> ImplRun(c0, u), tv |-> ImplRun(c0, v), mp |-> ModelFails(c0, u) \cup ModelFails(c0, v)]
@@ -115,7 +123,7 @@ Case(row, sh, da, p, rd, r, dt, real, kl, kt, ds) ==
       io == IF row.io.chk = "na" THEN row.io ELSE ResSig(row.io, sh)
       c0 == [f |-> row.f, t |-> row.t, sh |-> sh, n |-> row.n, da |-> da, u |-> u, v |-> v, pat |-> p, rd |-> rd, r |-> r,
              dt |-> dt, real |-> real, ds |-> ds, cls |-> row.cls, hcls |-> HCls(row.f), sig |-> sig, io |-> io,
-             rg |-> NoReg(da), ok |-> "-",
+             rg |-> NoReg(da), ok |-> "-", bm |-> "-", bk |-> "-",
              exact |-> row.ex, nocov |-> "nocov" \in row.fl, novals |-> "novals" \in row.fl, unord |-> "unordered" \in row.fl, od |-> PrimaryDeg(sig)] IN
   [c0 EXCEPT !.od = PrimaryDeg(sig)] @@ [tb |-> ImplRun(c0, u), tv |-> ImplRun(c0, v), mp |-> ModelFails(c0, u) \cup ModelFails(c0, v)]
 
@@ -140,6 +148,42 @@ TempCase(row, sh, da, p, pr) ==
       u == [i \in DOMAIN da |-> <<"Th", pr[1]>>] IN
   CaseU(row, sh, dt, u, VarUnits(dt, u, p, "Th", pr[2] - pr[1]), NoReg(da), p, "Th", pr[2] - pr[1], "f8", TRUE, 1)
 
+\* ---- multiplicative temperature units: every row of the table with its length operands holding temperatures (K, mK, R,
+\* delta_degF, delta_degC - degrees of different width, all without a zero point, so every function is demanded as on lengths)
+TmOf(da) == [i \in DOMAIN da |-> IF da[i] = "L" THEN "Tm" ELSE da[i]]
+TmCase(row, sh, da, pr) ==
+  LET dt == TmOf(da)
+      u == [i \in DOMAIN da |-> IF dt[i] = "Tm" THEN <<"Tm", pr[1]>> ELSE <<dt[i], 0>>] IN
+  CaseU(row, sh, dt, u, VarUnits(dt, u, "all", "Tm", pr[2] - pr[1]), NoReg(da), "all", "Tm", pr[2] - pr[1], "f8", TRUE, 1)
+
+\* ---- bare leading operands: the call form in which the first operand (and possibly more) is a plain ndarray / list and
+\* a quantity sits further down the signature.  m[i] = TRUE: operand i is given bare (the same numbers in both runs); every
+\* quantity operand is re-expressed.  A bare operand in a MERGING position (it shares its dimension with a quantity
+\* operand in every dimension assignment of the row: concatenation, comparison, insertion, bounds ...) either makes the
+\* call refuse or adopts the quantity's unit (deliberate in this library): it keeps that dimension in the signature and
+\* the numbers are not compared (nocov), but the UNIT of the result is demanded - a bare result where the signature has
+\* the quantity's dimension is a silent drop.  A bare operand in an independent position (factor of a product, weights,
+\* matrix of a linear system) is a pure number: dimension "N", everything demanded.
+BareMasks(n) == {m \in [1..n -> BOOLEAN] : m[1] /\ \E i \in 1..n : ~m[i]}
+MergesWith(row, i, j) == \A da \in row.das : da[i] = da[j]
+\* a merging position: the two operands share their dimension in every assignment AND one of them has degree zero in every
+\* output (it is compared with / written into / bounds the other; factors of a product have non-zero degrees)
+ZeroDeg(row, i) == \A j \in DOMAIN row.sig.o : row.sig.o[j].bare \/ row.sig.o[j].deg[i] = 0
+Adopts(row, m, i) == m[i] /\ \E j \in 1..row.n : ~m[j] /\ MergesWith(row, i, j) /\ (ZeroDeg(row, i) \/ ZeroDeg(row, j))
+OptTs == {r.t : r \in OptAllRows}
+MaskStr(m, n) == (IF m[1] THEN "b" ELSE "q") \o (IF m[2] THEN "b" ELSE "q") \o (IF n >= 3 THEN (IF m[3] THEN "b" ELSE "q") ELSE "")
+BareRow(row) == row.n >= 2 /\ row.t \notin OptTs /\ SubSeq(row.f, 1, 3) # "nd." /\ row.sig.k # "unknown"
+BareCase(row, sh, da, m, r, kl, kt, bk) ==
+  LET n == row.n
+      ad == [i \in 1..n |-> Adopts(row, m, i)]
+      u == [i \in 1..n |-> IF m[i] THEN <<(IF ad[i] THEN da[i] ELSE "N"), 0>> ELSE <<da[i], KOf(da[i], kl, kt)>>]
+      v == [i \in 1..n |-> IF m[i] THEN u[i] ELSE <<da[i], u[i][2] + r>>]
+      anyad == \E i \in 1..n : ad[i]
+      row2 == [row EXCEPT !.io = NA,   \* no transcription of this call form (several handlers die on <first argument>.units)
+                          !.fl = IF anyad THEN row.fl \cup {"nocov"} ELSE row.fl]
+      c1 == CaseU(row2, sh, [i \in 1..n |-> u[i][1]], u, v, NoReg(da), "bare", da[1], r, "f8", FALSE, 1) IN
+  [c1 EXCEPT !.bm = MaskStr(m, n), !.bk = bk]
+
 Next ==
   /\ c = <<>>
   /\ \E row \in Active : \E sh \in row.shs, da \in DasOf(row) : \E p \in Patterns(da), rd \in {"L", "T", "iL", "iT"} :
@@ -147,7 +191,7 @@ Next ==
        /\ PatOK(da, p, row.q, rd)
        /\ IF p = "all" THEN rd \in DimsIn(da) ELSE rd = da[PatIdx(p)]
        /\ \/ /\ "dy" \in Fams
-             /\ \E r \in Factors, b \in Bases, ds \in DataSets : \E k \in OutKinds(row) : c' = [Case(row, sh, da, p, rd, r, "f8", FALSE, b[1], b[2], ds) EXCEPT !.ok = k]
+             /\ \E r \in (IF p = "all" THEN Factors ELSE OneOpFactors), b \in Bases, ds \in DataSets : \E k \in OutKinds(row) : c' = [Case(row, sh, da, p, rd, r, "f8", FALSE, b[1], b[2], ds) EXCEPT !.ok = k]
           \/ /\ "int" \in Fams /\ "int" \in row.fl /\ p = "all"
              /\ \E r \in IntFactors : \E k \in OutKinds(row) : c' = [Case(row, sh, da, p, rd, r, "i8", FALSE, 0, -1, 1) EXCEPT !.ok = k]
           \/ /\ "int" \in Fams /\ "int" \in row.fl /\ p = "all"
@@ -156,6 +200,11 @@ Next ==
              /\ \E r \in RealIdx, ds \in DataSets : \E k \in OutKinds(row) : c' = [Case(row, sh, da, p, rd, r, "f8", TRUE, 0, 0, ds) EXCEPT !.ok = k]
           \/ /\ "temp" \in Fams /\ TempRow(row) /\ AllL(da) /\ rd = "L"
              /\ \E pr \in TempPairs : \E k \in OutKinds(row) : c' = [TempCase(row, sh, da, p, pr) EXCEPT !.ok = k]
+          \/ /\ "tm" \in Fams /\ row.q = AllQ /\ PlainDa(da) /\ p = "all" /\ rd = "L" /\ "L" \in DimsIn(da)
+             /\ \E pr \in TmPairs : \E k \in OutKinds(row) : c' = [TmCase(row, sh, da, pr) EXCEPT !.ok = k]
+          \/ /\ "bare" \in Fams /\ BareRow(row) /\ PlainDa(da) /\ p = "all" /\ rd = da[1]
+             /\ \E m \in BareMasks(row.n), r \in OneOpFactors \cap F2, b \in Bases, bk \in BareKinds :
+                  c' = [BareCase(row, sh, da, m, r, b[1], b[2], bk) EXCEPT !.ok = IF IsOutT(row.t) THEN "u" ELSE "-"]
           \/ /\ "reg" \in Fams /\ RegRow(row) /\ PlainDa(da) /\ p = "all" /\ rd = da[1]
              /\ \/ \E rg \in RegAssign(row.n, 1, 2) : \E k \in OutKinds(row) : c' = [RegCase(row, sh, da, rg) EXCEPT !.ok = k]
                 \/ \E rg \in RegMixed(row.n, 4, 3) : \E k \in OutKinds(row) : c' = [RegDCase(row, sh, da, rg) EXCEPT !.ok = k]
